@@ -877,14 +877,17 @@ where
         // their ops in the opposite order of their map updates. Acting on it would
         // touch whatever entry the map holds for the key *now*, or leave deque nodes
         // and counters for an entry that the map does not hold.
-        let is_current = self
+        let current_key = self
             .cache
             .get(&kh.key)
-            .map(|e| TrioArc::ptr_eq(&*e, &entry))
-            .unwrap_or(false);
-        if !is_current {
-            return;
-        }
+            .filter(|e| TrioArc::ptr_eq(e.value(), &entry))
+            .map(|e| Arc::clone(e.key()));
+        // Use the key object the map holds, so that the deque nodes do not keep a
+        // second copy of the key alive.
+        let kh = match current_key {
+            Some(key) => KeyHash::new(key, kh.hash),
+            None => return,
+        };
 
         entry.set_dirty(false);
 
